@@ -113,8 +113,32 @@ pub fn bgzf(blocks: &[&[u8]]) -> Vec<u8> {
 }
 
 pub fn bgzf_block(data: &[u8]) -> Vec<u8> {
+    bgzf_block_with(data, 0, 0, 0xff, flate2::Compression::default())
+}
+
+/// A BGZF block as a writer other than htslib may produce it: the gzip header fields MTIME, XFL and OS are free (the BGZF
+/// specification fixes only ID1, ID2, CM, FLG.FEXTRA and the BC subfield), and so is the compression level (0 = stored).
+pub fn bgzf_block_with(data: &[u8], mtime: u32, xfl: u8, os: u8, level: flate2::Compression) -> Vec<u8> {
+    let mut b = bgzf_block_level(data, level);
+    b[4..8].copy_from_slice(&mtime.to_le_bytes());
+    b[8] = xfl;
+    b[9] = os;
+    b
+}
+
+/// All blocks (and the EOF block) written with the given header fields.
+pub fn bgzf_chunks_with(data: &[u8], size: usize, mtime: u32, xfl: u8, os: u8, level: flate2::Compression) -> Vec<u8> {
+    let mut out = Vec::new();
+    for c in data.chunks(size.clamp(1, 60000)) {
+        out.extend_from_slice(&bgzf_block_with(c, mtime, xfl, os, level));
+    }
+    out.extend_from_slice(&bgzf_block_with(&[], mtime, xfl, os, level));
+    out
+}
+
+fn bgzf_block_level(data: &[u8], level: flate2::Compression) -> Vec<u8> {
     assert!(data.len() < 65280);
-    let mut enc = flate2::write::DeflateEncoder::new(Vec::new(), flate2::Compression::default());
+    let mut enc = flate2::write::DeflateEncoder::new(Vec::new(), level);
     enc.write_all(data).unwrap();
     let cdata = enc.finish().unwrap();
     let mut crc = flate2::Crc::new();
